@@ -135,6 +135,9 @@ class FakeServer(object):
         self.rcpt_out = {}
         self.desync = False
         self.closed = False
+        self.fault_stage = None     # first stage whose outcome is a hang-up / stall / non-reply
+        self.fault_seen = False     # ... and the client has run into it
+        self.on_abort = None
         self.fd = FakeServer._next_fd[0]
         FakeServer._next_fd[0] += 1
         SERVERS[self.fd] = self
@@ -153,6 +156,8 @@ class FakeServer(object):
         if self.dead:
             return None
         o = self.outcome(kind, m, i)
+        if o not in REPLY_CLASS and self.fault_stage is None:
+            self.fault_stage = (kind, m, i)
         if o in REPLY_CLASS:
             self.out += self.wire(kind, o)
         elif o == MALFORMED:
@@ -254,7 +259,18 @@ class FakeServer(object):
             self.trace.append(('unknown', line.decode('latin1')))
             self.desync = True
 
+    def _hit(self):
+        """the client is about to see the first hang-up / stall / malformed line of this connection"""
+        if self.fault_stage is not None and not self.fault_seen:
+            self.fault_seen = True
+            if self.on_abort:
+                self.on_abort(self)
+
     def recv(self, n=4096):
+        # everything queued is handed over at once, so a queued non-reply line is in this chunk;
+        # EOF / silence is met when nothing is queued any more
+        if self.fault_stage is not None and (self.dead is None or not self.out):
+            self._hit()
         if self.out:
             data, self.out = self.out[:n], self.out[n:]
             return data
@@ -357,7 +373,7 @@ def per_rcpt(res, n):
 
 
 # ----------------------------------------------------------------- SMTP / LMTP implementation runs
-def client_kwargs(case, sockets):
+def client_kwargs(case, sockets, on_abort=None):
     cfg = case['cfg']
 
     def creator(address):
@@ -372,6 +388,7 @@ def client_kwargs(case, sockets):
             sockets.append(None)
             VTimeout.expire()
         srv = FakeServer(case, idx if 'scripts' in case else 0)
+        srv.on_abort = on_abort
         sockets.append(srv)
         return srv
     kw = dict(socket_creator=creator, ehlo_as='there', context=FakeContext(),
@@ -394,8 +411,12 @@ def run_client(case):
     sockets = []
     cls = LmtpRelayClient if case['proto'] == 'lmtp' else SmtpRelayClient
     raised = None
+    abort = []
+
+    def on_abort(srv):
+        abort.append(dict(stage=srv.fault_stage, cur=srv.cur, ready=[r.ready() for r in results]))
     with Patches():
-        client = cls(('192.0.2.1', 25), queue, **client_kwargs(case, sockets))
+        client = cls(('192.0.2.1', 25), queue, **client_kwargs(case, sockets, on_abort))
         try:
             client._run()
         except Hang:
@@ -407,7 +428,7 @@ def run_client(case):
         srv = sockets[0] if sockets else None
         out = dict(results=[canon_result(r, e, queue) for r, e in zip(results, envs)],
                    trace=[t for t in (srv.trace if srv else [])],
-                   raised=raised, desync=bool(srv and srv.desync))
+                   raised=raised, desync=bool(srv and srv.desync), abort=(abort[0] if abort else None))
     return out
 
 
@@ -504,6 +525,18 @@ def oracle_smtp(ctx, case, impl):
 
     def out(kind, m=0, i=0):
         return script.get(skey(kind, m, i), DEFAULT[kind])
+    # a hang-up, a stall or a line that is no reply is a transient failure for the request being
+    # worked on, whatever error replies were seen earlier on the connection
+    ab = impl.get('abort')
+    if ab and ab['stage'][0] not in (K_IDLE, K_QUIT) and ab['cur'] < len(case['msgs']) and not ab['ready'][ab['cur']]:
+        m0 = ab['cur']
+        f0 = per_rcpt(impl['results'][m0], len(case['msgs'][m0]['rcpt_ok']))
+        if any(f != 'trans' for f in f0):
+            st = ab['stage']
+            _fail(ctx, 'c11:hangup-not-transient', dict(kind='smtp', case=case),
+                  'the connection broke (%s) at %s while request %d had no result yet; it is reported %r, expected transient for every recipient' % (
+                      ONAMES[script.get(skey(*st), DEFAULT[st[0]])], skey(*st), m0, f0))
+            return
     for m, msg in enumerate(case['msgs']):
         res = impl['results'][m]
         n = len(msg['rcpt_ok'])
@@ -717,6 +750,22 @@ def gen_smtp_cases(quick):
                 for o in ALL_OUT:
                     if o != STALL:
                         yield 'reuse', with_script(b, {skey(K_IDLE, 0): o})
+            # hang-up after error replies earlier in the session
+            for o in (MALFORMED, BADCODE, DISCONNECT, STALL):
+                hang1 = [(K_MAIL, 0), (K_RCPT, 1), (K_DATA, 0), (K_EOD, 1 if lmtp else 0), (K_RSET, 0)]
+                for (hk, hi) in hang1:
+                    for hist in ({}, {skey(K_EHLO): R500}, {skey(K_RCPT, 0, 0): R5}, {skey(K_RCPT, 0, 0): R4},
+                                 {skey(K_EHLO): R500, skey(K_RCPT, 0, 0): R5}):
+                        b = base_case(proto, pl, [2])
+                        sc0 = dict(hist); sc0[skey(hk, 0, hi)] = o
+                        yield 'hangup-history', with_script(b, sc0)
+                b = base_case(proto, pl, [2, 2], reuse=True)
+                for prev in ({skey(K_MAIL, 0): R5}, {skey(K_RCPT, 0, 0): R5, skey(K_RCPT, 0, 1): R5}, {skey(K_RCPT, 0, 0): R5},
+                             {skey(K_DATA, 0): R5}, {skey(K_EOD, 0, 0): R5}, {skey(K_EOD, 0, 1): R5}):
+                    for (hk, hi) in [(K_MAIL, 0), (K_RCPT, 0), (K_RCPT, 1), (K_DATA, 0), (K_EOD, 0), (K_EOD, 1)]:
+                        for extra in ({}, {skey(K_RCPT, 1, 0): R5}):
+                            sc0 = dict(prev); sc0.update(extra); sc0[skey(hk, 1, hi)] = o
+                            yield 'hangup-history', with_script(b, sc0)
             # no reuse configured: the second request stays queued
             b = base_case(proto, pl, [1, 1], reuse=False)
             yield 'noreuse', b
